@@ -177,7 +177,7 @@ def obs_coq(out):
 
 
 HEADER = """From Coq Require Import List NArith Bool.
-From BioSeq Require Import Bits Codec Tables SeqModel KmerModel VM.
+From BioSeq Require Import Bits Codec Tables SeqModel KmerModel VM Refine.
 From BioSeqGen Require Import Real_{profile}.
 Import ListNotations.
 Open Scope N_scope.
@@ -195,6 +195,7 @@ def write_cases(path, codec, profile, scripts, outs, dump_indices=None):
         f.write(";\n".join("(%s, %s)" % (script_coq(s), obs_coq(o)) for s, o in zip(scripts, outs)))
         f.write("].\n")
         f.write("Eval vm_compute in (vmmis 0 cases).\n")
+        f.write("Eval vm_compute in (Refine.lm_scope %s cases).\n" % codec)
         for i in dump_indices or []:
             f.write("Eval vm_compute in (vmrun %s).\n" % script_coq(scripts[i]))
 
@@ -262,20 +263,27 @@ def coq_mismatches_multi(groups, per_shard=60):
         if not m:
             raise CheckError("cannot read coqc output for %s: %s" % (path, p.stdout[-2000:]))
         mis = [lo + i for i in _parse_nlist(m.group(1))]
+        allm = _eval_re.findall(p.stdout)
+        sc = _parse_nlist(allm[1][0]) if len(allm) > 1 else [0, 0]
+        scope = (sc[0], sc[1], hi - lo)
         model = {}
         if mis:
             write_cases(path, g["codec"], g["profile"], g["scripts"][lo:hi], g["outs"][lo:hi],
                         dump_indices=[i - lo for i in mis[:4]])
             p = coqc(path)
             found = _eval_re.findall(p.stdout)
-            for i, (body, _) in zip(mis[:4], found[1:]):
+            for i, (body, _) in zip(mis[:4], found[2:]):
                 model[i] = parse_model_output(body)
         _cleanup(path)
-        return gi, mis, model
+        return gi, mis, model, scope
 
     res = [([], {}) for _ in groups]
+    for g in groups:
+        g["scope"] = [0, 0, 0]
     with cf.ThreadPoolExecutor(max_workers=16) as ex:
-        for gi, mis, model in ex.map(one, jobs):
+        for gi, mis, model, scope in ex.map(one, jobs):
             res[gi][0].extend(mis)
             res[gi][1].update(model)
+            for j in range(3):
+                groups[gi]["scope"][j] += scope[j]
     return [(sorted(m), d) for m, d in res]
